@@ -158,3 +158,15 @@ pub fn spec_encode_arcs(arcs: &[u32; MAX_ARCS], n: usize) -> ([u8; 24], usize) {
 pub fn stub_powi(_x: f64, _n: i32) -> f64 {
     2.0
 }
+
+/// Stub for `core::fmt::write` (S3) in op/socket harnesses: text of error messages (`e.to_string()`) is not the
+/// subject of any property there; unstubbed, String growth inside the formatter dominates symbolic execution.
+pub fn stub_fmt_write(_output: &mut dyn core::fmt::Write, _args: core::fmt::Arguments<'_>) -> core::fmt::Result {
+    Ok(())
+}
+
+/// Stub for `<std::io::Error as Display>::fmt` (S3b): io::Error is a bit-packed pointer; unstubbed, CBMC explores the
+/// OS-error branch (strerror, lossy UTF-8 conversion, String growth) on every `e.to_string()`.
+pub fn stub_ioerr_fmt(_e: &std::io::Error, _f: &mut core::fmt::Formatter<'_>) -> core::fmt::Result {
+    Ok(())
+}
